@@ -86,7 +86,8 @@ class Recorder:
         rec = self
 
         def wrapped(buf, *aa, **kk):
-            rec.items.append(np.array(buf, copy=True))
+            if isinstance(buf, np.ndarray):           # (the harness's thread reaper feeds the workers a non-array poison item)
+                rec.items.append(np.array(buf, copy=True))
             return rec.real(buf, *aa, **kk)
         self.mod = types.SimpleNamespace(**{k: getattr(cu.zfpy, k) for k in dir(cu.zfpy) if not k.startswith('__')})
         self.mod.compress_numpy = wrapped
